@@ -67,8 +67,19 @@ Run-time facts the semantics encodes (with their source):
   times; the frames a call sees depend only on the declaration (closure names), so the body
   executions are accounted for at the declaration, once per entry of the choice tree.
 
-Not modelled (validated by the oracle of the harness only): includes/imports/extends,
-debug-mode error reports, globals.
+* `include` / `import … as` / `from … import` / `extends`: the *name expression* is evaluated
+  in the current frames (`import` pushes an empty frame first); an import then stores its
+  alias(es) (`from … import` resolves the names against the exported locals of the module, not
+  against the context).  What the other template itself asks the context for belongs to that
+  template's own report and is not part of this model; whatever an included template assigns in
+  the includer's frame only binds more names.
+* A render can fail anywhere (undefined values, unknown filters, fuel, …): the choice tree can
+  cut the look-ups of any statement after any number of them (`Ch.ab`); the failure propagates
+  through every construct (a failing macro body fails the caller at the call, not at the
+  declaration where the model accounts for it; there it is ignored).
+
+Not modelled (validated by the oracle of the harness only): the look-ups of *other* templates
+(included, imported, extended), debug-mode error reports, globals.
 -/
 
 namespace MJ.Meta
@@ -119,6 +130,12 @@ inductive Stmt where
   | brk
   | cont
   | block (name : String) (body : List Stmt)
+  | include (name : Expr)
+  | extends (name : Expr)
+  /-- `Import { expr, name }` -/
+  | importAs (e : Expr) (target : Expr)
+  /-- `FromImport { expr, names }`; `targets` = the alias (or the name) of every entry -/
+  | fromImport (e : Expr) (targets : List Expr)
 
 /-! ## variable leaves of an expression, in the order of `tracker_visit_expr`
 
@@ -326,13 +343,13 @@ def walk (st : St) : Stmt → St
       let st := visitOpt st filter
       trackAssign st target
   | .macro name args defaults body =>
-      let st := st.assign name
       let st := st.push
       -- tracker_visit_macro(stmt, state, declare_caller = true)
       let st := st.assign "caller"
       let st := macroArgs st args.reverse defaults.reverse
       let st := walkList st body
-      st.pop
+      let st := st.pop
+      st.assign name
   | .callBlock callee cargs args defaults body =>
       let st := visitLeaves st (nvarsCall callee cargs)
       let st := st.push
@@ -347,6 +364,10 @@ def walk (st : St) : Stmt → St
       -- `mem::replace(&mut state.assigned, vec![Default::default()])` … restore
       let inner := walkList { st with assigned := [[]] } body
       { inner with assigned := st.assigned }
+  | .include name => visitExpr st name
+  | .extends name => visitExpr st name
+  | .importAs e target => trackAssign (visitExpr st e) target
+  | .fromImport e targets => targets.foldl trackAssign (visitExpr st e)
 def walkList (st : St) : List Stmt → St
   | [] => st
   | s :: ss => walkList (walk st s) ss
@@ -397,27 +418,34 @@ executions of sub-bodies, `reqs` = re-entries (recursive loop bodies, `self.bloc
 that happen while this statement runs: request `r` re-enters target number `r.n` with the
 choices `r.sub0` -/
 inductive Ch where
-  | mk (n : Nat) (subs : List (List Ch)) (reqs : List Ch)
+  | mk (n : Nat) (subs : List (List Ch)) (reqs : List Ch) (ab : Nat)
 
 def Ch.n : Ch → Nat
-  | .mk n _ _ => n
+  | .mk n _ _ _ => n
 
 def Ch.subs : Ch → List (List Ch)
-  | .mk _ s _ => s
+  | .mk _ s _ _ => s
 
 def Ch.reqs : Ch → List Ch
-  | .mk _ _ r => r
+  | .mk _ _ r _ => r
+
+/-- `0`: the statement completes; `k + 1`: the render fails inside the statement after `k` of
+its look-ups -/
+def Ch.ab : Ch → Nat
+  | .mk _ _ _ a => a
 
 def Ch.sub0 (c : Ch) : List Ch := c.subs.headD []
 
-def Ch.default : Ch := .mk 0 [] []
+def Ch.default : Ch := .mk 0 [] [] 0
 
-/-- result of running a piece of code: the new top frame, the context keys asked, and whether
-a `break`/`continue` is on its way to the enclosing loop -/
+/-- result of running a piece of code: the new top frame, the context keys asked, whether
+control does not reach the next statement (`break`/`continue` on its way to the enclosing
+loop, or a failure), and whether that is a failure (which no loop absorbs) -/
 structure Res where
   top : Frame
   reads : List String
   stopped : Bool := false
+  aborted : Bool := false
 
 /-- `compile_assignment`: stores and the look-up of `set ns.attr` -/
 def bindAtoms (top : Frame) (below : List Frame) : List TAtom → Frame × List String
@@ -426,6 +454,14 @@ def bindAtoms (top : Frame) (below : List Frame) : List TAtom → Frame × List 
   | .look e :: rest =>
       let r := bindAtoms top below rest
       (r.1, lookups top below (vars e) ++ r.2)
+
+/-- the aliases of a `from … import` -/
+def bindTargets (top : Frame) (below : List Frame) : List Expr → Frame × List String
+  | [] => (top, [])
+  | t :: rest =>
+      let r1 := bindAtoms top below (targetAtoms t)
+      let r2 := bindTargets r1.1 below rest
+      (r2.1, r1.2 ++ r2.2)
 
 /-- with-block assignments, in the freshly pushed frame -/
 def bindWith (top : Frame) (below : List Frame) : List (Expr × Expr) → Frame × List String
@@ -463,14 +499,14 @@ mutual
 /-- look-ups of one statement, started with top frame `top` above `below` -/
 def exec (K : Reenter) (rc : RC) (bt : BT) (top : Frame) (below : List Frame) (c : Ch) :
     Stmt → Res
-  | .emit e => ⟨top, lookups top below (vars e), false⟩
-  | .raw => ⟨top, [], false⟩
+  | .emit e => ⟨top, lookups top below (vars e), false, false⟩
+  | .raw => ⟨top, [], false, false⟩
   | .forLoop target iter filter recursive body els =>
       let r0 := lookups top below (vars iter)
       if c.n = 0 then
         -- nothing to iterate: else body in the outer frame (part of the enclosing loop)
         let r := execList K rc bt top below c.sub0 els
-        ⟨r.top, r0 ++ r.reads, r.stopped⟩
+        ⟨r.top, r0 ++ r.reads, r.stopped, r.aborted⟩
       else
         -- filter pass: frame without `loop`, target bound
         let ft := bindAtoms [] (top :: below) (targetAtoms target)
@@ -478,7 +514,7 @@ def exec (K : Reenter) (rc : RC) (bt : BT) (top : Frame) (below : List Frame) (c
         if c.n = 1 then
           -- every item filtered out: else body
           let r := execList K rc bt top below c.sub0 els
-          ⟨r.top, r0 ++ (rf ++ r.reads), r.stopped⟩
+          ⟨r.top, r0 ++ (rf ++ r.reads), r.stopped, r.aborted⟩
         else
           -- one entry of `subs` per iteration; each starts from the cleared loop frame; a
           -- `break`/`continue` ends the iteration
@@ -486,38 +522,41 @@ def exec (K : Reenter) (rc : RC) (bt : BT) (top : Frame) (below : List Frame) (c
           let rc' := if recursive then (targetAtoms target, body) :: rc else rc
           let rb := c.subs.flatMap (fun kid =>
             (execList K rc' bt it.1 (top :: below) kid body).reads)
-          ⟨top, r0 ++ (rf ++ (it.2 ++ rb)), false⟩
+          -- a failing iteration fails the loop
+          let ab := c.subs.any (fun kid =>
+            (execList K rc' bt it.1 (top :: below) kid body).aborted)
+          ⟨top, r0 ++ (rf ++ (it.2 ++ rb)), ab, ab⟩
   | .ifCond e t f =>
       let r0 := lookups top below (vars e)
       if c.n = 0 then
         let r := execList K rc bt top below c.sub0 f
-        ⟨r.top, r0 ++ r.reads, r.stopped⟩
+        ⟨r.top, r0 ++ r.reads, r.stopped, r.aborted⟩
       else
         let r := execList K rc bt top below c.sub0 t
-        ⟨r.top, r0 ++ r.reads, r.stopped⟩
+        ⟨r.top, r0 ++ r.reads, r.stopped, r.aborted⟩
   | .withBlock assigns body =>
       let w := bindWith [] (top :: below) assigns
       let r := execList K rc bt w.1 (top :: below) c.sub0 body
-      ⟨top, w.2 ++ r.reads, r.stopped⟩
+      ⟨top, w.2 ++ r.reads, r.stopped, r.aborted⟩
   | .set target e =>
       let r0 := lookups top below (vars e)
       let r := bindAtoms top below (targetAtoms target)
-      ⟨r.1, r0 ++ r.2, false⟩
+      ⟨r.1, r0 ++ r.2, false, false⟩
   | .autoEscape e body =>
       let r0 := lookups top below (vars e)
       let r := execList K rc bt top below c.sub0 body
-      ⟨r.top, r0 ++ r.reads, r.stopped⟩
+      ⟨r.top, r0 ++ r.reads, r.stopped, r.aborted⟩
   | .filterBlock filter body =>
       let r := execList K rc bt top below c.sub0 body
       if r.stopped then r
-      else ⟨r.top, r.reads ++ lookups r.top below (vars filter), false⟩
+      else ⟨r.top, r.reads ++ lookups r.top below (vars filter), false, false⟩
   | .setBlock target filter body =>
       let r := execList K rc bt top below c.sub0 body
       if r.stopped then r
       else
         let rf := lookups r.top below (varsOpt filter)
         let r2 := bindAtoms r.top below (targetAtoms target)
-        ⟨r2.1, r.reads ++ (rf ++ r2.2), false⟩
+        ⟨r2.1, r.reads ++ (rf ++ r2.2), false, false⟩
   | .macro name args defaults body =>
       -- Enclose(n) for every closure name, then BuildMacro, StoreLocal(name)
       let rd := lookups top below (closureNames args defaults body)
@@ -526,33 +565,47 @@ def exec (K : Reenter) (rc : RC) (bt : BT) (top : Frame) (below : List Frame) (c
       let rb := c.subs.flatMap (fun kid =>
         let a := bindArgs (macroFrame args defaults body) [[]] args.reverse defaults.reverse
         a.2 ++ (execList K [] bt a.1 [[]] kid body).reads)
-      ⟨name :: top, rd ++ rb, false⟩
+      ⟨name :: top, rd ++ rb, false, false⟩
   | .callBlock callee cargs args defaults body =>
       let r0 := lookups top below (varsCall callee cargs)
       let rd := lookups top below (closureNames args defaults body)
       let rb := c.subs.flatMap (fun kid =>
         let a := bindArgs (macroFrame args defaults body) [[]] args.reverse defaults.reverse
         a.2 ++ (execList K [] bt a.1 [[]] kid body).reads)
-      ⟨top, r0 ++ (rd ++ rb), false⟩
-  | .doStmt callee cargs => ⟨top, lookups top below (varsCall callee cargs), false⟩
-  | .brk => ⟨top, [], true⟩
-  | .cont => ⟨top, [], true⟩
+      ⟨top, r0 ++ (rd ++ rb), false, false⟩
+  | .doStmt callee cargs => ⟨top, lookups top below (varsCall callee cargs), false, false⟩
+  | .brk => ⟨top, [], true, false⟩
+  | .cont => ⟨top, [], true, false⟩
   | .block _ body =>
       -- CallBlock: fresh frame on top of the current ones, separate instructions
       let r := execList K [] bt [] (top :: below) c.sub0 body
-      ⟨top, r.reads, false⟩
+      ⟨top, r.reads, r.aborted, r.aborted⟩
+  | .include name => ⟨top, lookups top below (vars name), false, false⟩
+  | .extends name => ⟨top, lookups top below (vars name), false, false⟩
+  | .importAs e target =>
+      -- PushWith; name expression; Include; …; PopFrame; store the alias
+      let r0 := lookups [] (top :: below) (vars e)
+      let r := bindAtoms top below (targetAtoms target)
+      ⟨r.1, r0 ++ r.2, false, false⟩
+  | .fromImport e targets =>
+      let r0 := lookups [] (top :: below) (vars e)
+      let r := bindTargets top below targets
+      ⟨r.1, r0 ++ r.2, false, false⟩
 def execList (K : Reenter) (rc : RC) (bt : BT) (top : Frame) (below : List Frame) :
     List Ch → List Stmt → Res
-  | _, [] => ⟨top, [], false⟩
+  | _, [] => ⟨top, [], false, false⟩
   | cs, s :: ss =>
       let c := cs.headD Ch.default
       -- re-entries that happen while `s` runs, with the frames of its start
       let rq := K rc bt top below c.reqs
       let r1 := exec K rc bt top below c s
-      if r1.stopped then ⟨r1.top, rq ++ r1.reads, true⟩
+      if c.ab ≠ 0 then
+        -- the render fails inside `s`, after `c.ab - 1` look-ups
+        ⟨r1.top, (rq ++ r1.reads).take (c.ab - 1), true, true⟩
+      else if r1.stopped then ⟨r1.top, rq ++ r1.reads, true, r1.aborted⟩
       else
         let r2 := execList K rc bt r1.top below cs.tail ss
-        ⟨r2.top, rq ++ (r1.reads ++ r2.reads), r2.stopped⟩
+        ⟨r2.top, rq ++ (r1.reads ++ r2.reads), r2.stopped, r2.aborted⟩
 end
 
 /-- one re-entry request: targets `0 … rc.length-1` are the running recursive loops (a new
@@ -596,6 +649,10 @@ def blockBodies : Stmt → BT
   | .brk => []
   | .cont => []
   | .block _ body => body :: blockBodiesL body
+  | .include _ => []
+  | .extends _ => []
+  | .importAs _ _ => []
+  | .fromImport _ _ => []
 def blockBodiesL : List Stmt → BT
   | [] => []
   | s :: ss => blockBodies s ++ blockBodiesL ss
@@ -606,54 +663,58 @@ at most `d` deep; the root frame has no locals and the render context as `ctx` -
 def reads (t : List Stmt) (cs : List Ch) (d : Nat) : List String :=
   (execList (reenter d) [] (blockBodiesL t) [] [] cs t).reads
 
-/-! ## the exception set of the known finding: macros that mention their own name -/
+/-! ## the attribute paths that occur in a template
+
+Every expression the analysis visits, as leaves: a variable with the attribute look-ups that
+directly follow it (`a.b.c` ↦ `("a", ["b", "c"])`). -/
+
+def atomLeaves : List TAtom → List Leaf
+  | [] => []
+  | .name _ :: rest => atomLeaves rest
+  | .look e :: rest => nvars e ++ atomLeaves rest
+
+def targetLeaves (t : Expr) : List Leaf := atomLeaves (targetAtoms t)
+
+def targetsLeaves : List Expr → List Leaf
+  | [] => []
+  | t :: ts => targetLeaves t ++ targetsLeaves ts
+
+def assignsLeaves : List (Expr × Expr) → List Leaf
+  | [] => []
+  | (t, e) :: rest => nvars e ++ (targetLeaves t ++ assignsLeaves rest)
+
+/-- the defaults the macro prologue walks (`args.rev()` zipped with `defaults.rev()`) -/
+def defaultsLeaves : List String → List Expr → List Leaf
+  | [], _ => []
+  | _ :: as, [] => defaultsLeaves as []
+  | _ :: as, d :: ds => nvars d ++ defaultsLeaves as ds
 
 mutual
-/-- names of macro declarations whose closure analysis contains the macro's own name
-(`Enclose(name)` runs before `StoreLocal(name)`) -/
-def selfRefs : Stmt → List String
-  | .emit _ => []
+def leaves : Stmt → List Leaf
+  | .emit e => nvars e
   | .raw => []
-  | .forLoop _ _ _ _ body els => selfRefsL body ++ selfRefsL els
-  | .ifCond _ t f => selfRefsL t ++ selfRefsL f
-  | .withBlock _ body => selfRefsL body
-  | .set _ _ => []
-  | .setBlock _ _ body => selfRefsL body
-  | .autoEscape _ body => selfRefsL body
-  | .filterBlock _ body => selfRefsL body
-  | .macro name args defaults body =>
-      (if (closureNames args defaults body).contains name then [name] else []) ++ selfRefsL body
-  | .callBlock _ _ _ _ body => selfRefsL body
-  | .doStmt _ _ => []
+  | .forLoop target iter filter _ body els =>
+      nvars iter ++ (targetLeaves target ++ (nvarsOpt filter ++ (leavesL body ++ leavesL els)))
+  | .ifCond c t f => nvars c ++ (leavesL t ++ leavesL f)
+  | .withBlock assigns body => assignsLeaves assigns ++ leavesL body
+  | .set target e => nvars e ++ targetLeaves target
+  | .setBlock target filter body => leavesL body ++ (nvarsOpt filter ++ targetLeaves target)
+  | .autoEscape e body => nvars e ++ leavesL body
+  | .filterBlock filter body => leavesL body ++ nvars filter
+  | .macro _ args defaults body => defaultsLeaves args.reverse defaults.reverse ++ leavesL body
+  | .callBlock callee cargs args defaults body =>
+      nvarsCall callee cargs ++ (defaultsLeaves args.reverse defaults.reverse ++ leavesL body)
+  | .doStmt callee cargs => nvarsCall callee cargs
   | .brk => []
   | .cont => []
-  | .block _ body => selfRefsL body
-def selfRefsL : List Stmt → List String
+  | .block _ body => leavesL body
+  | .include name => nvars name
+  | .extends name => nvars name
+  | .importAs e target => nvars e ++ targetLeaves target
+  | .fromImport e targets => nvars e ++ targetsLeaves targets
+def leavesL : List Stmt → List Leaf
   | [] => []
-  | s :: ss => selfRefs s ++ selfRefsL ss
-end
-
-mutual
-/-- the macro-free fragment (phase 1) -/
-def noMacro : Stmt → Bool
-  | .emit _ => true
-  | .raw => true
-  | .forLoop _ _ _ _ body els => noMacroL body && noMacroL els
-  | .ifCond _ t f => noMacroL t && noMacroL f
-  | .withBlock _ body => noMacroL body
-  | .set _ _ => true
-  | .setBlock _ _ body => noMacroL body
-  | .autoEscape _ body => noMacroL body
-  | .filterBlock _ body => noMacroL body
-  | .macro _ _ _ _ => false
-  | .callBlock _ _ _ _ _ => false
-  | .doStmt _ _ => true
-  | .brk => true
-  | .cont => true
-  | .block _ body => noMacroL body
-def noMacroL : List Stmt → Bool
-  | [] => true
-  | s :: ss => noMacro s && noMacroL ss
+  | s :: ss => leaves s ++ leavesL ss
 end
 
 end MJ.Meta
